@@ -784,6 +784,10 @@ func ownedSliceFields(p *Program, st *types.Struct) map[string]bool {
 			if b, ok := x.Call.Value.(*ssa.Builtin); ok && b.Name() == "append" {
 				return ownedVal(x.Call.Args[0], base, k, depth+1)
 			}
+			// a reslice-or-allocate helper: the result is a fresh make or a reslice of one slice argument
+			if pi, ok := resliceOrMake(x.Call.StaticCallee()); ok && pi < len(x.Call.Args) {
+				return ownedVal(x.Call.Args[pi], base, k, depth+1)
+			}
 		}
 		return false
 	}
@@ -1092,4 +1096,68 @@ func sliceRoot(v ssa.Value) ssa.Value {
 		}
 	}
 	return nil
+}
+
+
+// resliceOrMake: every value fn returns is nil, a fresh make, or a reslice of its slice parameter
+// number param (the shape of reuse-or-allocate helpers, cleared or not).
+var resliceOrMakeMemo = map[*ssa.Function]int{}
+
+func resliceOrMake(fn *ssa.Function) (param int, ok bool) {
+	if fn == nil || fn.Blocks == nil {
+		return 0, false
+	}
+	if v, seen := resliceOrMakeMemo[fn]; seen {
+		return v, v >= 0
+	}
+	resliceOrMakeMemo[fn] = -1
+	if fn.Signature.Results().Len() != 1 {
+		return 0, false
+	}
+	if _, isSl := fn.Signature.Results().At(0).Type().Underlying().(*types.Slice); !isSl {
+		return 0, false
+	}
+	for pi, par := range fn.Params {
+		if _, isSl := par.Type().Underlying().(*types.Slice); !isSl {
+			continue
+		}
+		var derived func(v ssa.Value, depth int) bool
+		derived = func(v ssa.Value, depth int) bool {
+			if depth > 6 {
+				return false
+			}
+			switch x := v.(type) {
+			case *ssa.Parameter:
+				return x == par
+			case *ssa.Slice:
+				return derived(x.X, depth+1)
+			case *ssa.MakeSlice:
+				return true
+			case *ssa.Const:
+				return x.IsNil()
+			case *ssa.Phi:
+				for _, e := range x.Edges {
+					if e != v && !derived(e, depth+1) {
+						return false
+					}
+				}
+				return true
+			}
+			return false
+		}
+		good, nret := true, 0
+		for _, b := range fn.Blocks {
+			if ret, isRet := b.Instrs[len(b.Instrs)-1].(*ssa.Return); isRet {
+				nret++
+				if !derived(ret.Results[0], 0) {
+					good = false
+				}
+			}
+		}
+		if good && nret > 0 {
+			resliceOrMakeMemo[fn] = pi
+			return pi, true
+		}
+	}
+	return 0, false
 }
